@@ -111,7 +111,7 @@ PROP = dict(
                               'preview_short_unchanged', 'preview_few_runes_unchanged', 'preview_long_cut', 'preview_cases']],
     streams=[world.world_stream("C13"), dict(gate.gate_stream(), post=post_gate), dict(name="preview", pkg="fcm", gen=gen_preview, classify=lambda o, i: (i if o.startswith("push.drafty") else ("cut" if len(i) < len(o.split(" ")[1]) else "kept")))],
     seeds=dict(quick=1, thorough=4),
-    rule="random histories of 30-120 requests per case (420 cases quick, 600 thorough per seed, every third a clause scenario with random parameters) over 4 users, 7 sessions (two per user, "
+    rule="the session gate stream of C11 (every client message kind before and after the handshake and the login, junk tokens of every length around a real one's to {login} and {acc}: a panic or an unanswered request is a violation); random histories of 30-120 requests per case (420 cases quick, 600 thorough per seed, every third a clause scenario with random parameters) over 4 users, 7 sessions (two per user, "
          "one background, one anonymous, one root acting for others) up to 3 group topics and the peer-to-peer topics between the users, a third of the cases with one injected "
          "store failure per request, a third with crash points and restarts; non-trivial = every request line",
     assumptions=world.WORLD_ASSUMPTIONS,
